@@ -96,28 +96,33 @@ inductive Case where
 /-- What a script can ask of a remote speaker on a real TCP session (`(glue-tcp ...)`): a session is opened
     only when none can be up and the peer is not administratively down; it ends by the socket being
     closed, by a NOTIFICATION from the speaker or by an FSM error; no real-time `wait`. -/
-def tcpOkFrom (maybeUp admin : Bool) : List Ev → Bool
+def tcpOkFrom (maybeUp admin : Bool) (fams : List Fam) : List Ev → Bool
   | [] => true
-  | .est .. :: es => !maybeUp && !admin && tcpOkFrom true admin es
+  | .est fs _ _ _ :: es => !maybeUp && !admin && tcpOkFrom true admin fs es
   | .down r :: es =>
       (match r with | .io => true | .remoteNotif .. => true | .fsmError => true | _ => false) &&
-        tcpOkFrom false admin es
-  | .attempt :: es => !maybeUp && tcpOkFrom maybeUp admin es
-  | .force :: es => tcpOkFrom false admin es
-  | .disable :: es => tcpOkFrom false true es
-  | .enable :: es => tcpOkFrom maybeUp false es
+        tcpOkFrom false admin fams es
+  | .attempt :: es => !maybeUp && tcpOkFrom maybeUp admin fams es
+  | .force :: es => tcpOkFrom false admin fams es
+  | .disable :: es => tcpOkFrom false true fams es
+  | .enable :: es => tcpOkFrom maybeUp false fams es
   | .wait :: _ => false
-  | _ :: es => tcpOkFrom maybeUp admin es
+  -- the End-of-RIB marker of IPv4 unicast is the empty UPDATE and can always be sent; the marker of
+  -- another family needs that family on the session
+  | .eor f :: es => (f = 0 || !maybeUp || fams.contains f) && tcpOkFrom maybeUp admin fams es
+  | _ :: es => tcpOkFrom maybeUp admin fams es
 
-def tcpOk (evs : List Ev) : Bool := tcpOkFrom false false evs
+def tcpOk (evs : List Ev) : Bool := tcpOkFrom false false [] evs
 
-/-- `(glue ev ...)`, `(glue-short ev ...)` (1 s timers; only there may `wait` occur), `(glue-tcp ev ...)`
+/-- `(glue ev ...)`, `(glue-short ev ...)` / `(glue-real ev ...)` (1 s timers on the paused / the real clock;
+    only there may `wait` occur), `(glue-tcp ev ...)`
     (the same events over a real TCP session, where possible) or `(pure in ...)` -/
 def caseOf? : Term → Option Case
   | .list (.atom "glue" :: evs) => do
       let evs ← evs.mapM evOf?
       if evs.contains .wait then none else pure (.glue evs)
   | .list (.atom "glue-short" :: evs) => (evs.mapM evOf?).map .glue
+  | .list (.atom "glue-real" :: evs) => (evs.mapM evOf?).map .glue
   | .list (.atom "glue-tcp" :: evs) => do
       let evs ← evs.mapM evOf?
       if tcpOk evs then pure (.glue evs) else none
